@@ -729,7 +729,7 @@ int disasm_68000(
   }
 
   strcpy(instruction, "???");
-  return -1;
+  return 2;
 }
 
 void list_output_68000(
